@@ -19,6 +19,7 @@ import EnrVerif.Props.C10
 import EnrVerif.Props.C10Shape
 import EnrVerif.Props.C11
 import EnrVerif.Props.C12
+import EnrVerif.Props.C12Shape
 import EnrVerif.Props.C13
 import EnrVerif.Props.C14
 import EnrVerif.Props.C15
